@@ -413,6 +413,20 @@ fn run(a: &vhcore::Args) -> i32 {
     if suites.len() != closed {
         vhcore::machinery_failure(&format!("suite enumerator produced {} suites, closed form {closed}", suites.len()));
     }
+    let mut suites = suites;
+    let dev_stride = match std::env::var("VH_DEV_STRIDE").ok().and_then(|s| s.parse::<usize>().ok()) {
+        Some(n) if n > 1 => {
+            let total = suites.len();
+            let mut k = 0usize;
+            suites.retain(|_| {
+                k += 1;
+                (k - 1) % n == 0
+            });
+            rep.cap(&format!("DEVELOPMENT RUN: VH_DEV_STRIDE={n}: only {} of {total} suites executed — not a check result", suites.len()));
+            true
+        }
+        _ => false,
+    };
     let scratch = vhcore::work_dir("C29/run");
     let pool = SubPool::new(a.jobs, scratch.clone(), "c29worker");
     let reqs: Vec<Req> = suites
@@ -537,7 +551,7 @@ fn run(a: &vhcore::Args) -> i32 {
     rep.set("rule", "distinct ordered per-test result vectors (name, final state, passed, logs) returned by forc-test over all (suite, runner count, filter) runs");
     rep.set("distinct_single_test_results", distinct_results.len() as u64);
     rep.set("children_cpu_seconds", children_cpu_seconds());
-    rep.set("exhaustive", true);
+    rep.set("exhaustive", !dev_stride);
     for s in suites.iter().step_by((suites.len() / 8).max(1)) {
         rep.sample(json!({"suite": s.kinds.iter().map(|k| k.tag()).collect::<Vec<_>>(), "configs": s.configs().len()}));
     }
